@@ -184,8 +184,34 @@ func (p *PropertySchema) ValidateCompatibility(typeOrData any) error {
 }
 
 func (p *PropertySchema) Validate(data any) error {
-	return p.TypeValue.Validate(data)
+	if err := p.TypeValue.Validate(data); err != nil {
+		return err
+	}
+	// As in Unserialize and ValidateCompatibility, a disabled property cannot be used.
+	return p.disabledError()
 }
 func (p *PropertySchema) Serialize(data any) (any, error) {
-	return p.TypeValue.Serialize(data)
+	result, err := p.TypeValue.Serialize(data)
+	if err != nil {
+		return nil, err
+	}
+	if err := p.disabledError(); err != nil {
+		return nil, err
+	}
+	return result, nil
+}
+
+// disabledError returns the error for attempting to use this property if it is disabled, nil otherwise.
+func (p *PropertySchema) disabledError() error {
+	if !p.Disabled {
+		return nil
+	}
+	if p.DisabledReason == nil {
+		return &ConstraintError{
+			Message: "error due to attempting to use disabled property",
+		}
+	}
+	return &ConstraintError{
+		Message: fmt.Sprintf("error due to attempting to use disabled property: %s", *p.DisabledReason),
+	}
 }
